@@ -123,7 +123,7 @@ def judge(c):
     for i, o in enumerate(I):
         if o.startswith(("ERR", "EXC", "HANG", "INCOHERENT")):
             res.append(("violation", "%s -> %s" % (c.lines[i], o)))
-    if res or len(M) == n:
+    if any(k == "violation" for k, _ in res) or len(M) == n:
         return res
     X = M[n:]
     # laws, evaluated with the model's == on the implementation's results (the
